@@ -71,3 +71,14 @@ claim("C02",
       "library; bisection/linear-scan accept sets; separator computed iff a block is cut, right before the flush. That index search plus block search "
       "land on the right entry for every table/query, and the separator arithmetic, are not decided.",
       "Trusts memcmp's unsigned-byte semantics, T-cmp rows 4-7,9,11,22, and that lookups reach the reader only through the constructor table.")
+
+claim("C15",
+      "registry sibling agreement (switch/branch tables by abstract path evaluation vs T-comp), symbolic derivation of capacities from library bound functions, per-call error-predicate table, interval constraints on levels",
+      "Decides completely the name-table clause: to_str/from_str agree per constant, names are distinct, unknown names/constants are refused. "
+      "Decides: every dispatcher has a case per constant routed to the T-comp pair with data arguments forwarded and the level forwarded where one exists; "
+      "each compressor's capacity and allocation derive from the library's own bound function of the input size; every library result is tested with that "
+      "library's predicate before success is reported (zero content size legal, both zstd sentinels excluded); lz4 prefix framing agrees across the three "
+      "siblings; levels reaching zlib/lz4hc/zstd are clamped into the legal interval on every path; failure exits free the output. The libraries' own "
+      "round-trip behaviour on every buffer is not decided.",
+      "Trusts T-comp/T-liberr (library contracts transcribed from their headers), that library calls write only through the pointers they are handed, "
+      "and clang's constant evaluation of the zlib/zstd macros.")
